@@ -3,12 +3,12 @@ import itertools, sys, os, copy as pycopy
 import numpy as np
 from vlib import coqterm as ct
 from checks.C04 import (dense, is_gauss_int, zlist, natlist, mk_fields, qubit, build_gate, spec_particles,
-                        wire_of, ref_embed, rand_phase_perm, mat_spec)
+                        wire_of, ref_embed, rand_phase_perm, mat_spec, reach, follow, apply_mutation)
 
 sys.path.insert(0, os.path.join(os.path.dirname(os.path.dirname(os.path.abspath(__file__))), "gen"))
 
 HEADER = ("From Qib Require Import Embed.CircCheck.\nFrom Run Require Import GenCirc.\n"
-          "Definition bad_cases := bad_cases_with gen_copy_deep.\n")
+          "Definition bad_cases := bad_cases_with gen_ctor_copies gen_copy_deep.\n")
 
 SIG_WRAP = "as_tensornet:two-qubit-gate-wrapped-without-reshape"
 SIG_EINSUM = "contract_einsum:label-position-slip-on-idle-wire"
@@ -255,6 +255,8 @@ def value_of(g, F, codes):
     """value tree (class code, params, kids) of a live gate object; independent of object identity"""
     name = type(g).__name__
     cls = codes.index(name)
+    if name in ("RotationGate", "PrepareGate"):
+        raise ValueError(name + ": not in the history alphabet (array-valued attributes)")
     if hasattr(g, "qubit"):
         ps = ([thc(g.theta)] if hasattr(g, "theta") else []) + [pid(g.qubit, F)]
         return (cls, tuple(ps), ())
@@ -280,54 +282,268 @@ def gval_term(v):
     return "(GVal %s %s %s)" % (ct.nat(v[0]), zlist(v[1]), ct.lst([gval_term(k) for k in v[2]]))
 
 
-def reach(g):
-    out = [g]
-    if hasattr(g, "tgate"):
-        out += reach(g.tgate)
-    if hasattr(g, "tgates"):
-        for t in g.tgates:
-            out += reach(t)
+# ----------------------------------------------------------------------------- by-value reference of a history
+def unpid(x):
+    return (x // 16, x % 16)
+
+
+def gate_from_value(v, F, codes):
+    """a FRESH gate object (no history) denoting the value tree v (inverse of value_of)"""
+    import qib.operator.gates as QG
+    cls, ps, kids = v
+    name = codes[cls]
+    G = getattr(QG, name)
+    q = lambda x: qubit(F, unpid(x))
+    if name in ("RxxGate", "RyyGate", "RzzGate"):
+        return G(ps[0] / 8.0, q(ps[1]), q(ps[2]))
+    if name == "ISwapGate":
+        return G(q(ps[0]), q(ps[1]))
+    if name == "PhaseFactorGate":
+        return G(ps[0] / 8.0, ps[1]).on([q(x) for x in ps[2:]])
+    if name == "GeneralGate":
+        n = ps[0]
+        d = 2 ** n
+        flat = ps[1:1 + 2 * d * d]
+        m = np.array([complex(flat[2 * i], flat[2 * i + 1]) for i in range(d * d)]).reshape(d, d)
+        return G(m, n).on([q(x) for x in ps[1 + 2 * d * d:]])
+    if name == "ControlledGate":
+        n = ps[0]
+        return G(gate_from_value(kids[0], F, codes), n, list(ps[1:1 + n])).set_control([q(x) for x in ps[1 + n:]])
+    if name == "MultiplexedGate":
+        return G([gate_from_value(k, F, codes) for k in kids], ps[0]).set_control([q(x) for x in ps[1:]])
+    if len(ps) == 2:
+        return G(ps[0] / 8.0, q(ps[1]))
+    return G(q(ps[0]))
+
+
+def value_particles(v, codes):
+    """particles (as pids) in the order particles() must list them; None = a multiplexer below has differing targets"""
+    cls, ps, kids = v
+    name = codes[cls]
+    if name in ("RxxGate", "RyyGate", "RzzGate"):
+        return [ps[2], ps[1]]
+    if name == "ISwapGate":
+        return [ps[0], ps[1]]
+    if name == "PhaseFactorGate":
+        return list(ps[2:])
+    if name == "GeneralGate":
+        return list(ps[1 + 2 * 4 ** ps[0]:])
+    if name == "ControlledGate":
+        t = value_particles(kids[0], codes)
+        return None if t is None else list(ps[1 + ps[0]:]) + t
+    if name == "MultiplexedGate":
+        ts = [value_particles(k, codes) for k in kids]
+        if any(t is None or t != ts[0] for t in ts):
+            return None
+        return list(ps[1:]) + ts[0]
+    return [ps[-1]]
+
+
+def value_fields(v, codes):
+    """gate.fields(): field indices in the order the gate lists them"""
+    cls, ps, kids = v
+    name = codes[cls]
+    if name in ("RxxGate", "RyyGate", "RzzGate"):
+        pl = [ps[1], ps[2]]
+    elif name == "ControlledGate":
+        pl = list(ps[1 + ps[0]:])
+    elif name == "MultiplexedGate":
+        pl = list(ps[1:])
+    else:
+        pl = value_particles(v, codes)
+    out = []
+    for x in pl:
+        if x // 16 not in out:
+            out.append(x // 16)
+    for k in kids[:1]:
+        for f in value_fields(k, codes):
+            if f not in out:
+                out.append(f)
     return out
 
 
-def follow(g, path):
-    for i in path:
-        if hasattr(g, "tgate"):
-            g = g.target_gate()
-            assert i == 0
-        else:
-            g = g.target_gates()[i]
-    return g
+WRAP_CLASSES = ("RxxGate", "RyyGate", "RzzGate", "ISwapGate")
 
 
-def apply_mutation(obj, mut, F):
-    k = mut[0]
-    if k == "on1":
-        obj.on(qubit(F, mut[1]))
-    elif k == "attr_qubit":
-        obj.qubit = qubit(F, mut[1])
-    elif k == "theta":
-        obj.theta = mut[1]
-    elif k == "phi":
-        obj.phi = mut[1]
-    elif k == "q1":
-        obj.q1 = qubit(F, mut[1])
-    elif k == "on2":
-        obj.on(qubit(F, mut[1]), qubit(F, mut[2]))
-    elif k == "onlist":
-        obj.on([qubit(F, p) for p in mut[1]])
-    elif k == "set_control":
-        obj.set_control([qubit(F, p) for p in mut[1]])
-    elif k == "ctrl_state":
-        obj.ctrl_state = list(mut[1])
-    elif k == "ctrl_state_inplace":
-        obj.ctrl_state[mut[1]] ^= 1
-    elif k == "control_qubits_inplace":
-        obj.control_qubits[mut[1]] = qubit(F, mut[2])
-    elif k == "prtcl_inplace":
-        obj.prtcl[mut[1]] = qubit(F, mut[2])
-    else:
-        raise ValueError(mut)
+class ValueRef:
+    """by-value reference of the views of a circuit given as a list of value trees; memoised on the values (the
+    IMPLEMENTATION is re-queried every time, the reference for an unchanged gate list is not recomputed)"""
+
+    def __init__(self, sizes, codes):
+        self.sizes, self.codes = sizes, codes
+        self.F = mk_fields(sizes)          # fields of the reference gates: never seen by the objects under test
+        self.memo = {}
+
+    def matrix(self, values, order):
+        """("ok", dense matrix, exact?) or ("AssertionError", None, None) for a gate list as_matrix must refuse"""
+        key = (tuple(values), tuple(order))
+        if key not in self.memo:
+            self.memo[key] = self._matrix(values, order)
+        return self.memo[key]
+
+    def _matrix(self, values, order):
+        nw = sum(self.sizes[i] for i in order)
+        M = np.identity(2 ** nw, dtype=complex)
+        exact = True
+        for v in values:
+            pl = value_particles(v, self.codes)
+            if pl is None:
+                return "AssertionError", None, None
+            ws = [wire_of(self.sizes, order, unpid(x)) for x in pl]
+            if len(set(ws)) != len(ws):
+                return "AssertionError", None, None
+            gm = gate_from_value(v, self.F, self.codes).as_matrix()
+            exact = exact and is_gauss_int(gm)
+            M = ref_embed(nw, ws, gm) @ M
+        return "ok", M, exact
+
+    def fields(self, values):
+        out = []
+        for v in values:
+            for f in value_fields(v, self.codes):
+                if f not in out:
+                    out.append(f)
+        return out
+
+    def tn_runs(self, values):
+        """the tensor-network views are exercised unless a top-level gate is of a class whose as_tensornet is the known
+        finding SIG_WRAP (reported from the fixed inputs)"""
+        return not any(self.codes[v[0]] in WRAP_CLASSES for v in values)
+
+
+class Observer:
+    """re-queries ALL views of ALL circuits (as_matrix under every field order incl. a repeated query with the order
+    used last, statevector simulator, tensor network and its simulator) and compares them with the by-value
+    reference; matrices handed out earlier must keep their entries; every third round the caller overwrites the
+    matrix it got back (the next query must not be affected)."""
+
+    def __init__(self, ctx, sizes, codes, F, tn=True):
+        self.ctx, self.sizes, self.F, self.codes = ctx, sizes, F, codes
+        self.ref = ValueRef(sizes, codes)
+        nf = len(sizes)
+        self.orders = [list(o) for o in itertools.permutations(range(nf))][:4]
+        self.last = {}        # circuit index -> order of its most recent as_matrix query
+        self.handed = {}      # circuit index -> [[returned object, dense snapshot]] (most recent few)
+        self.round = 0
+        self.tn = tn
+        self.scribbled = []   # matrices the caller has overwritten
+
+    def intact(self, d):
+        for c, hs in self.handed.items():
+            for out, snap in hs:
+                now = dense(out)
+                if now.shape != snap.shape or not np.array_equal(now, snap):
+                    self.ctx.fail("as_matrix:matrix-returned-earlier-changed-by-later-call", d,
+                                  "a matrix handed out by as_matrix keeps its entries", "changed (circuit %d)" % c)
+                    return False
+        return True
+
+    def observe(self, circs, ghost, d):
+        """False = a view disagrees (reported)"""
+        import qib
+        from qib.tensor_network.tensor_network import to_full_tensor
+        ctx, F, sizes = self.ctx, self.F, self.sizes
+        self.round += 1
+        if not self.intact(d):
+            return False
+        for c, circ in enumerate(circs):
+            values = ghost[c]
+            if not values:
+                try:
+                    circ.as_matrix(F)
+                    ctx.fail("as_matrix:empty-circuit-accepted", dict(d, circuit=c), "RuntimeError", "a matrix")
+                    return False
+                except RuntimeError:
+                    continue
+            r = self.round % len(self.orders)
+            seq = ([self.last[c]] if c in self.last else []) + self.orders[r:] + self.orders[:r]
+            if len(seq) == 1:
+                seq = seq * 2
+            bad = False
+            for order in seq:
+                kind, R, exact = self.ref.matrix(values, order)
+                try:
+                    out = circ.as_matrix([F[i] for i in order])
+                    got = "ok"
+                except AssertionError:
+                    out, got = None, "AssertionError"
+                except Exception as e:
+                    ctx.fail("as_matrix:crash-in-history:" + type(e).__name__, dict(d, circuit=c, order=order), kind, repr(e)[:200])
+                    return False
+                ctx.count("history_view_as_matrix")
+                if got != kind:
+                    ctx.fail("history:as_matrix:%s-where-%s-expected" % (got, kind), dict(d, circuit=c, order=order), kind, got)
+                    return False
+                if got != "ok":
+                    bad = True
+                    continue
+                D = dense(out)
+                if D.shape != R.shape or not (np.array_equal(D, R) if exact else np.allclose(D, R, rtol=0, atol=1e-12)):
+                    if any(out is o or np.shares_memory(out.data, o.data) for o in self.scribbled):
+                        ctx.fail("history:as_matrix-returns-storage-of-a-matrix-handed-out-before-and-overwritten-by-the-caller",
+                                 dict(d, circuit=c, order=order), "a matrix the caller owns (writing into it affects nothing)",
+                                 "the next as_matrix call returns the overwritten entries")
+                    else:
+                        ctx.fail("history:as_matrix-differs-from-product-of-the-current-gates", dict(d, circuit=c, order=order),
+                                 "E(g_n)...E(g_1) of the gates the circuit holds now (by value)", "differs")
+                    return False
+                if not self.intact(d):
+                    return False
+                self.handed.setdefault(c, []).append([out, D])
+                self.handed[c] = self.handed[c][-3:]
+                self.last[c] = order
+            if bad:
+                continue
+            if (self.round + c) % 3 == 0 and self.handed.get(c):
+                out = self.handed[c][-1][0]
+                out.data[:] = 7                       # the caller owns the matrix it got back
+                self.scribbled = self.scribbled[-5:] + [out]
+                for hs in self.handed.values():       # the same object may have been handed out more than once
+                    for h in hs:
+                        if h[0] is out:
+                            h[1] = dense(out)
+            # simulators and tensor network: over circ.fields()
+            forder = self.ref.fields(values)
+            try:
+                cf = [F.index(f) for f in circ.fields()]
+            except Exception as e:
+                ctx.fail("Circuit.fields:crash:" + type(e).__name__, dict(d, circuit=c), forder, repr(e)[:200])
+                return False
+            if cf != forder:
+                ctx.fail("Circuit.fields:order-of-first-appearance", dict(d, circuit=c), forder, cf)
+                return False
+            kind, R, exact = self.ref.matrix(values, forder)
+            nw = sum(sizes[i] for i in forder)
+            try:
+                psi = np.asarray(qib.simulator.StatevectorSimulator().run(circ), dtype=complex).reshape(-1)
+            except Exception as e:
+                ctx.fail("statevector:crash-in-history:" + type(e).__name__, dict(d, circuit=c), "state", repr(e)[:200])
+                return False
+            ctx.count("history_view_statevector")
+            if psi.shape != (2 ** nw,) or not np.allclose(psi, R[:, 0], rtol=0, atol=1e-12):
+                ctx.fail("history:statevector-differs-from-first-column-of-the-current-gates", dict(d, circuit=c),
+                         "column 0 of E(g_n)...E(g_1)", "differs")
+                return False
+            if not self.tn or nw > 6 or not self.ref.tn_runs(values):
+                continue
+            try:
+                net = circ.as_tensornet()
+                t, am = net.contract_einsum()
+                T = np.asarray(to_full_tensor(t, am), dtype=complex).reshape(2 ** nw, 2 ** nw)
+                out = np.asarray(qib.simulator.TensorNetworkSimulator().run(circ), dtype=complex).reshape(-1)
+            except Exception as e:
+                ctx.fail("tensornet:crash-in-history:" + type(e).__name__, dict(d, circuit=c), "network", repr(e)[:200])
+                return False
+            ctx.count("history_view_tensornet")
+            if not np.allclose(T, R, rtol=0, atol=1e-10):
+                ctx.fail("history:tensornet-differs-from-product-of-the-current-gates", dict(d, circuit=c),
+                         "contraction = E(g_n)...E(g_1)", "differs")
+                return False
+            if not np.allclose(out, R[:, 0], rtol=0, atol=1e-10):
+                ctx.fail("history:tn_simulator-differs-from-first-column-of-the-current-gates", dict(d, circuit=c),
+                         "column 0", "differs")
+                return False
+        return True
 
 
 def rand_mutation(rng, obj, sizes):
@@ -396,14 +612,20 @@ def rand_history(rng, sizes, length, want=None):
                 kids_of.append(2)
                 kinds.append("Mux")
             nh += 1
-        elif r < 0.36:
+        elif r < 0.34:
             evs.append(["circ"])
             nc += 1
-        elif r < 0.60:
+        elif r < 0.39:
+            # other = Circuit([g1, ...]) from the caller's objects (kept by reference: known finding for `other` itself)
+            evs.append(["circL", [rng.randrange(nh) for _ in range(rng.randint(1, 2))]])
+            nc += 1
+        elif r < 0.56:
             evs.append(["mut", rng.randrange(nh), rng.randint(0, 2)])     # path depth chosen at run time
-        elif r < 0.66:
+        elif r < 0.64:
+            evs.append(["mutG", rng.randrange(nc), rng.randrange(8), rng.randint(0, 2)])   # circ.gates[j % len] (skipped if empty)
+        elif r < 0.69:
             evs.append(["setkid", rng.randrange(nh), rng.randrange(nh), rng.choice(["attr", "inplace"])])
-        elif r < 0.82:
+        elif r < 0.83:
             evs.append([rng.choice(["append_gate", "prepend_gate"]), rng.randrange(nc), rng.randrange(nh)])
         else:
             c, c2 = rng.randrange(nc), rng.randrange(nc)
@@ -414,21 +636,31 @@ def rand_history(rng, sizes, length, want=None):
     return evs
 
 
-def run_history(ctx, rng, sizes, evs, desc, check=True):
-    """execute a history on the implementation; returns (model events, final circuit values, final handle values).
-    evs entries "mut"/"setkid" with symbolic choices are resolved here (deterministically from rng) and the
-    resolved event list is returned in desc['events'] for replay."""
+CTOR_INPUT = {"kind": "ctor", "program": "x = PauliXGate(q1); c = Circuit([x]); x.on(q2)"}
+BUILDER_OPS = ("append_gate", "prepend_gate", "append_circuit", "prepend_circuit")
+
+
+def run_history(ctx, rng, sizes, evs, desc, check=True, tn=True):
+    """execute a history on the implementation; returns (model events or None, final circuit values, final handle values).
+    evs entries "mut"/"mutG"/"setkid" with symbolic choices are resolved here (deterministically from rng) and the
+    resolved event list is returned in desc['events'] for replay.
+    After EVERY event: (1) every circuit holds, by value, the gates it had when they were added (ghost); a circuit made by
+    the list constructor Circuit([...]) that follows its caller's objects instead is the known finding SIG_CTOR - reported
+    for that circuit only, its ghost re-synchronised, the history goes on; (2) after every builder call and every
+    mutation ALL views of ALL circuits are re-queried and compared with the by-value reference (Observer)."""
     import qib
     import embed as gen_embed
     codes = gen_embed.class_codes()
     F = mk_fields(sizes)
     handles, circs = [], []
     ghost = []                # by-value reference: per circuit the list of value trees
-    model = []
+    origin = []               # per circuit, per position: index of the caller's handle the list constructor was given, else None
+    model = []                # Coq events; None once an event outside the modelled alphabet occurred
     resolved = []
+    obs = Observer(ctx, sizes, codes, F, tn=tn) if check else None
     for ev in evs:
         k = ev[0]
-        mats_before = None
+        what = None           # None: nothing to observe; else the kind of event for the report
         if k == "new":
             g = build_gate(ev[1], F)
             handles.append(g)
@@ -455,8 +687,18 @@ def run_history(ctx, rng, sizes, evs, desc, check=True):
         elif k == "circ":
             circs.append(qib.Circuit())
             ghost.append([])
+            origin.append([])
             model.append("ENewCircuit")
             resolved.append(ev)
+        elif k == "circL":
+            # the list constructor: other = Circuit([g1, g2, ...]) from the caller's objects
+            hs = [h for h in ev[1] if h < len(handles)]
+            circs.append(qib.Circuit([handles[h] for h in hs]))
+            ghost.append([value_of(handles[h], F, codes) for h in hs])
+            origin.append(list(hs))
+            model.append("ENewCircuitOf %s" % natlist(hs))
+            resolved.append(["circL", hs])
+            what = "builder-call"
         elif k in ("mut", "mutR"):
             h = ev[1]
             if k == "mut":
@@ -475,12 +717,45 @@ def run_history(ctx, rng, sizes, evs, desc, check=True):
             else:
                 path, mut = ev[2], ev[3]
                 obj = follow(handles[h], path)
-            before = [snapshot_matrix(c, F) for c in circs]
             apply_mutation(obj, mut, F)
             v = value_of(obj, F, codes)
             model.append("EMutate %s %s %s" % (ct.nat(h), natlist(path), zlist(v[1])))
             resolved.append(["mutR", h, path, mut])
-            mats_before = before
+            what = "mutation"
+        elif k in ("mutG", "mutGR"):
+            # mutation THROUGH a circuit's gate list: other.gates[j] (or a target reached from it)
+            c = ev[1]
+            if c >= len(circs) or not circs[c].gates:
+                continue
+            j = ev[2] % len(circs[c].gates)
+            if k == "mutG":
+                path, obj = [], circs[c].gates[j]
+                for _ in range(ev[3]):
+                    if hasattr(obj, "tgate"):
+                        path.append(0)
+                        obj = obj.target_gate()
+                    elif hasattr(obj, "tgates") and obj.tgates:
+                        i = rng.randrange(len(obj.tgates))
+                        path.append(i)
+                        obj = obj.target_gates()[i]
+                mut = rand_mutation(rng, obj, sizes)
+                if mut is None:
+                    continue
+            else:
+                path, mut = ev[3], ev[4]
+                obj = follow(circs[c].gates[j], path)
+            hv_before = [value_of(g, F, codes) for g in handles]
+            apply_mutation(obj, mut, F)
+            v = value_of(obj, F, codes)
+            # the circuit whose own gate was mutated changes accordingly; nothing else may
+            ghost[c] = ghost[c][:j] + [value_of(circs[c].gates[j], F, codes)] + ghost[c][j + 1:]
+            model.append("EMutateGate %s %s %s %s" % (ct.nat(c), ct.nat(j), natlist(path), zlist(v[1])))
+            resolved.append(["mutGR", c, j, path, mut])
+            what = "gate-list-mutation"
+            if check and origin[c][j] is None and hv_before != [value_of(g, F, codes) for g in handles]:
+                ctx.fail("by-value:caller-object-changed-by-mutating-a-gate-of-a-circuit", dict(desc, events=resolved),
+                         "the caller's gate objects are not touched by mutating the circuit's copy", "changed")
+                return None
         elif k in ("setkid", "setkidR"):
             h, h2, mode = ev[1], ev[2], ev[3]
             if k == "setkid":
@@ -499,7 +774,6 @@ def run_history(ctx, rng, sizes, evs, desc, check=True):
             old_w = (obj.tgate if hasattr(obj, "tgate") else obj.tgates[i]).num_wires
             if new.num_wires != old_w:
                 continue
-            before = [snapshot_matrix(c, F) for c in circs]
             if hasattr(obj, "tgate"):
                 obj.tgate = new
             elif mode == "inplace":
@@ -510,7 +784,7 @@ def run_history(ctx, rng, sizes, evs, desc, check=True):
                 obj.tgates = t
             model.append("ESetKid %s %s %s %s" % (ct.nat(h), natlist(path), ct.nat(i), ct.nat(h2)))
             resolved.append(["setkidR", h, h2, mode, path, i])
-            mats_before = before
+            what = "mutation"
         elif k in ("append_gate", "prepend_gate"):
             c, h = ev[1], ev[2]
             v = value_of(handles[h], F, codes)
@@ -520,8 +794,10 @@ def run_history(ctx, rng, sizes, evs, desc, check=True):
                 ctx.fail("%s:crash:%s" % (k, type(e).__name__), desc, "gate copied into the circuit", repr(e)[:200])
                 return None
             ghost[c] = ghost[c] + [v] if k == "append_gate" else [v] + ghost[c]
+            origin[c] = origin[c] + [None] if k == "append_gate" else [None] + origin[c]
             model.append("%s %s %s" % ("EAppendGate" if k == "append_gate" else "EPrependGate", ct.nat(c), ct.nat(h)))
             resolved.append(ev)
+            what = "builder-call"
         elif k in ("append_circuit", "prepend_circuit"):
             c, c2 = ev[1], ev[2]
             try:
@@ -529,45 +805,43 @@ def run_history(ctx, rng, sizes, evs, desc, check=True):
             except Exception as e:
                 ctx.fail("%s:crash:%s" % (k, type(e).__name__), desc, "gates copied into the circuit", repr(e)[:200])
                 return None
-            ghost[c] = ghost[c] + ghost[c2] if k == "append_circuit" else ghost[c2] + ghost[c]
+            # the receiving circuit takes the gates `other` holds NOW, by value (ghost[c2] is what it holds now: checked
+            # after the previous event)
+            taken = list(ghost[c2])
+            ghost[c] = ghost[c] + taken if k == "append_circuit" else taken + ghost[c]
+            origin[c] = origin[c] + [None] * len(taken) if k == "append_circuit" else [None] * len(taken) + origin[c]
             model.append("%s %s %s" % ("EAppendCircuit" if k == "append_circuit" else "EPrependCircuit", ct.nat(c), ct.nat(c2)))
             resolved.append(ev)
+            what = "builder-call"
+        else:
+            raise ValueError(ev)
         # ---- oracle after every event: circuits hold the values their gates had when added
         if check:
-            now = [[value_of(g, F, codes) for g in c.gates] for c in circs]
-            if now != ghost:
-                what = "mutation" if k in ("mut", "mutR", "setkid", "setkidR") else "builder-call"
-                d = dict(desc, events=resolved)
-                if what == "mutation":
-                    ctx.fail("by-value:circuit-changed-by-mutating-caller-object", d,
-                             "circuit gates unchanged by a later mutation of the caller's objects", "changed")
-                else:
+            d = dict(desc, events=list(resolved))
+            for c, circ in enumerate(circs):
+                now = [value_of(g, F, codes) for g in circ.gates]
+                if now == ghost[c]:
+                    continue
+                byref = [value_of(handles[o], F, codes) if o is not None else gv for o, gv in zip(origin[c], ghost[c])]
+                if what != "builder-call" and any(o is not None for o in origin[c]) and now == byref:
+                    # Circuit([...]) kept the caller's objects: the known finding, for the constructed circuit itself
+                    ctx.fail(SIG_CTOR, CTOR_INPUT, "c.as_matrix unchanged", "changed")
+                    ctx.count("history_ctor_by_reference_observed")
+                    ghost[c] = now
+                    continue
+                if what == "builder-call":
                     ctx.fail("builder:%s-not-the-list-operation" % k, d, "gate list composed by value", "differs")
+                elif what == "gate-list-mutation":
+                    ctx.fail("by-value:circuit-changed-by-mutating-a-gate-of-another-circuit", dict(d, circuit=c),
+                             "only the circuit whose own gate was mutated changes", "circuit %d changed" % c)
+                else:
+                    ctx.fail("by-value:circuit-changed-by-mutating-caller-object", dict(d, circuit=c),
+                             "circuit gates unchanged by a later mutation of the caller's objects", "changed")
                 return None
-            if mats_before is not None:
-                after = [snapshot_matrix(c, F) for c in circs]
-                for a, b in zip(mats_before, after):
-                    if not same_snapshot(a, b):
-                        ctx.fail("by-value:circuit-matrix-changed-by-mutating-caller-object", dict(desc, events=resolved),
-                                 "as_matrix unchanged", "changed")
-                        return None
+            if what is not None and not obs.observe(circs, ghost, d):
+                return None
     desc["events"] = resolved
     return model, [[value_of(g, F, codes) for g in c.gates] for c in circs], [value_of(g, F, codes) for g in handles]
-
-
-def snapshot_matrix(c, F):
-    if not c.gates:
-        return None
-    try:
-        return dense(c.as_matrix(F))
-    except Exception as e:
-        return type(e).__name__
-
-
-def same_snapshot(a, b):
-    if a is None or b is None or isinstance(a, str) or isinstance(b, str):
-        return (a is None and b is None) or (isinstance(a, str) and isinstance(b, str) and a == b)
-    return np.array_equal(a, b)
 
 
 def oracle_builders(ctx, sizes, ops, desc):
@@ -651,23 +925,39 @@ def run(ctx):
         "(fail closed) against the shapes modelled in Qib.Embed.CircModel; every Gate.__copy__ is read for how it passes "
         "tgate/tgates (deep / shallow) -> gen_copy_deep. Python aliasing is modelled by identity-labelled trees "
         "(Qib.Embed.HeapModel): non-gate attributes are values (lists are re-created by the constructors/setters - validated by "
-        "in-place list mutations in the histories), object graphs are acyclic. scipy sparse @ = matrix product (modelled). "
+        "in-place list mutations in the histories), object graphs are acyclic; Circuit([...]) keeps the caller's objects "
+        "(gen_ctor_copies, known finding) - such circuits are flagged 'not by value' in the model's ghost and the theorem is about "
+        "all other circuits. scipy sparse @ = matrix product (modelled). "
         "The checker evaluates circuit matrices with re-materialisation after every gate; CheckProofs.cm_dense_correct proves "
         "that evaluation equal to the model's cmat. Tensor-network view and TN simulator: NOT modelled here, oracle/correspondence only.")
+    ctx.trusted.append(
+        "C05 histories with observations: the code recomputes every view from the current gate list (translator: as_matrix is the "
+        "five-statement loop, the builders are single list operations; no attribute is assigned elsewhere) = the recomputing "
+        "semantics `trace` of Qib.Embed.ObsModel; the harness re-queries the implementation after every event and compares with a "
+        "reference built from VALUE trees (fresh gate objects on fresh fields, einsum embedding)")
     ctx.assumes.append("control instructions are skipped by as_matrix/as_tensornet and are not part of the modelled gate list; "
                        "in-place mutation of numpy arrays / operators / qubit objects held by a gate is outside the modelled mutation "
                        "alphabet (the arrays GeneralGate.mat / RotationGate.ntheta ARE shared by copy(): oracle + known finding "
-                       "by-value:array-attribute-shared-with-circuit-copy), as is mutation through "
-                       "circuit.gates are outside the mutation alphabet; c.append_circuit(c) does not terminate and is excluded")
+                       "by-value:array-attribute-shared-with-circuit-copy); mutation through circuit.gates[i] (attribute assignment / "
+                       "mutators on the gate or a target reached from it) IS in the alphabet, replacing list elements of circuit.gates "
+                       "is not; c.append_circuit(c) does not terminate and is excluded; RotationGate / PrepareGate do not occur in "
+                       "histories (programs only)")
     ctx.rules.append("random programs (I,X,Y,Z,S,Sdg,H,T,Tdg,Sx,Rx/y/z,Rotation,Rxx/yy/zz,iSwap,Phase,Prepare,General, controlled incl. negated and nested "
                      "controls, multiplexed; shared control wires; idle wires; 1-3 fields; length<=10) through as_matrix (two field "
                      "orders), StatevectorSimulator, as_tensornet().contract_einsum(), TensorNetworkSimulator; builder-call "
-                     "histories over 1-3 circuits with mutations after every kind of add. scripted histories: every mutation of the "
+                     "histories over 1-4 circuits (empty or list-constructed from caller objects) with mutations of caller objects and "
+                     "through circuit.gates[i] after every kind of add. After EVERY builder call, list construction and mutation ALL "
+                     "views of ALL circuits are re-queried (as_matrix under every field order, the first query repeating the order "
+                     "used last on that circuit; statevector; tensor network and its simulator) and compared with the by-value "
+                     "reference; matrices handed out earlier must keep their entries; every third round the caller overwrites the "
+                     "matrix it got back. scripted histories: every mutation of the "
                      "alphabet on every object reachable from the added gate, after append and prepend, directly and after the gate "
-                     "travelled through a second circuit. non-trivial = program with >=2 gates "
+                     "travelled through a second circuit; circuits built from other circuits (made by builder calls / by the list "
+                     "constructor) then mutated through the caller's handle or through other.gates[i], the block added again; every "
+                     "ordered pair of builder calls. non-trivial = program with >=2 gates "
                      "sharing a wire or an idle wire, or builder program composing >=2 gates, or history with a mutation after a "
                      "builder call")
-    ctx.lib(["Embed/CircCheck", "Embed/CircProofs", "Embed/HeapProofs", "Embed/CheckProofs"])
+    ctx.lib(["Embed/CircCheck", "Embed/CircProofs", "Embed/HeapProofs", "Embed/CheckProofs", "Embed/HeapObs"])
     ok = ctx.translate("GenCirc", gen_embed.generate_circ)
     if ok:
         ctx.props()
@@ -687,6 +977,19 @@ def run(ctx):
             if sampled.get(k, 0) < 3:
                 sampled[k] = sampled.get(k, 0) + 1
                 ctx.sample(desc, cap=16)
+
+
+    UNMODELLED = ()
+
+    def hist_case(res, sizes, events, nontrivial=True):
+        model, cvals, hvals = res
+        if any(m.startswith(UNMODELLED) for m in model) if UNMODELLED else False:
+            ctx.count("history_outside_model_alphabet")
+            return
+        add("CHist %s %s %s" % (ct.lst(["(%s)" % m for m in model]),
+                                ct.lst([ct.lst([gval_term(v) for v in c]) for c in cvals]),
+                                ct.lst([gval_term(v) for v in hvals])),
+            {"kind": "history", "sizes": sizes, "events": events}, nontrivial)
 
     # ------------------------------------------------------------ fixed inputs of the known defects
     fixed = [
@@ -828,6 +1131,51 @@ def run(ctx):
                     # the same after the gate travelled through a second circuit
                     scripted4.append(ev + [[add_op, 0, top], ["circ"], ["append_circuit", 1, 0], ["prepend_circuit", 0, 1],
                                            ["mutR", top, pth, mt]])
+
+    # circuits built FROM other circuits: `other` made by builder calls or by the list constructor, handed to
+    # append_circuit / prepend_circuit, then mutated through the caller's handle or through other.gates[i] (on the gate or
+    # on a target reached from it); the same block added a second time afterwards gives a different layer.  The receiving
+    # circuit (0) must hold values; only a list-constructed `other` may follow the caller's object (known finding)
+    scripted5 = []
+    shapes5 = [
+        ([["new", ["X", [0, 1]]]], 0, [([], ["on1", free]), ([], ["attr_qubit", free])]),
+        ([["new", ["Rz", 0.5, [0, 1]]]], 0, [([], ["theta", -0.75]), ([], ["on1", free])]),
+        ([["new", ["X", [0, 1]]], ["newC", [1], [[0, 0]], 0]], 1,
+         [([], ["set_control", [free]]), ([], ["ctrl_state", [0]]), ([0], ["on1", free])]),
+        ([["new", ["X", [0, 1]]], ["new", ["Z", [0, 1]]], ["newMux", [[0, 0]], [0, 1]]], 2,
+         [([], ["set_control", [free]]), ([0], ["on1", [0, 2]])]),
+    ]
+    for op in ("append_circuit", "prepend_circuit"):
+        for mk_, top, muts in shapes5:
+            nh_ = len(mk_)
+            for pth, mt in muts:
+                head = [["circ"]] + mk_ + [["new", ["Y", [0, 0]]], ["append_gate", 0, nh_]]
+                via_builder = head + [["circ"], ["append_gate", 1, top]]
+                via_ctor = head + [["circL", [top]]]
+                for other in (via_builder, via_ctor):
+                    scripted5.append(other + [[op, 0, 1], ["mutR", top, pth, mt], [op, 0, 1]])
+                    scripted5.append(other + [[op, 0, 1], ["mutGR", 1, 0, pth, mt], [op, 0, 1]])
+                    scripted5.append(other + [["prepend_gate", 1, nh_], [op, 0, 1], ["mutGR", 0, 0 if op == "prepend_circuit" else 1, [], ["on1", [0, 2]]],
+                                              ["mutGR", 1, 1, pth, mt]])
+    # every ordered pair of builder calls on one circuit (views are queried after each: a view cached by one call and
+    # not reset by another shows up), then the pair once more
+    for op1 in BUILDER_OPS:
+        for op2 in BUILDER_OPS:
+            arg = lambda op: 1 if op.endswith("circuit") else 0
+            scripted5.append([["circ"], ["new", ["X", [0, 1]]], ["new", ["S", [0, 2]]], ["append_gate", 0, 1], ["circ"],
+                              ["append_gate", 1, 0], ["newC", [1], [[0, 3]], 1], ["prepend_gate", 1, 2],
+                              [op1, 0, arg(op1)], [op2, 0, arg(op2)], ["mutR", 0, [], ["on1", free]], [op1, 0, arg(op1)],
+                              [op2, 0, arg(op2)]])
+    for evs in scripted5:
+        sizes = [4]
+        evs = jsonable(evs)
+        desc = {"kind": "history", "sizes": sizes, "events": evs}
+        res = run_history(ctx, rng, sizes, evs, desc)
+        ctx.count("history_scripted_circuits_from_circuits")
+        if res is None:
+            continue
+        hist_case(res, sizes, desc["events"])
+
     for evs in scripted4:
         sizes = [4]
         evs = jsonable(evs)
@@ -839,11 +1187,7 @@ def run(ctx):
                 ctx.count("scripted_mutation_" + e[3][0])
         if res is None:
             continue
-        model, cvals, hvals = res
-        add("CHist %s %s %s" % (ct.lst(["(%s)" % m for m in model]),
-                                ct.lst([ct.lst([gval_term(v) for v in c]) for c in cvals]),
-                                ct.lst([gval_term(v) for v in hvals])),
-            {"kind": "history", "sizes": sizes, "events": desc["events"]})
+        hist_case(res, sizes, desc["events"])
 
     for evs in scripted:
         sizes = [3]
@@ -852,11 +1196,7 @@ def run(ctx):
         ctx.count("history_scripted")
         if res is None:
             continue
-        model, cvals, hvals = res
-        add("CHist %s %s %s" % (ct.lst(["(%s)" % m for m in model]),
-                                ct.lst([ct.lst([gval_term(v) for v in c]) for c in cvals]),
-                                ct.lst([gval_term(v) for v in hvals])),
-            {"kind": "history", "sizes": sizes, "events": desc["events"]})
+        hist_case(res, sizes, desc["events"])
 
     # ------------------------------------------------------------ histories with mutations
     nh = 500 if ctx.thorough else 160
@@ -875,14 +1215,11 @@ def run(ctx):
         has_mut_after_add = False
         seen_add = False
         for e in desc["events"]:
-            if e[0] in ("append_gate", "prepend_gate", "append_circuit", "prepend_circuit"):
+            if e[0] in BUILDER_OPS:
                 seen_add = True
-            if e[0] in ("mutR", "setkidR") and seen_add:
+            if e[0] in ("mutR", "setkidR", "mutGR") and seen_add:
                 has_mut_after_add = True
-        add("CHist %s %s %s" % (ct.lst(["(%s)" % m for m in model]),
-                                ct.lst([ct.lst([gval_term(v) for v in c]) for c in cvals]),
-                                ct.lst([gval_term(v) for v in hvals])),
-            {"kind": "history", "sizes": sizes, "events": desc["events"]}, has_mut_after_add)
+        hist_case(res, sizes, desc["events"], has_mut_after_add)
     oracle_ctor(ctx)
     oracle_array_alias(ctx)
     ctx.notes.append("observations outside the property text: StatevectorSimulator.run raises AttributeError on circuits "
@@ -898,7 +1235,7 @@ def run(ctx):
             shallow = []
         header = ("From Qib Require Import Embed.CircCheck.\nDefinition deep_rules (cls : nat) : bool :=\n  match cls with\n"
                   + "".join("  | %d%%nat => false\n" % i for i in shallow) + "  | _ => true\n  end.\n"
-                  "Definition bad_cases := bad_cases_with deep_rules.\n")
+                  "Definition bad_cases := bad_cases_with false deep_rules.\n")
     dis = ctx.cases("circ", header, cases)
     for i, d in dis[:5]:
         ctx.log("model/impl disagree on", d)
